@@ -20,7 +20,8 @@ from witness import leb_ref, sleb_ref, TOOLCHAIN  # noqa: E402
 
 def build_replay():
     src = os.path.join(ROOT, "replay")
-    work = os.path.join(ROOT, "out", "replay_crate")
+    outroot = os.environ.get("VERIF_OUT") or os.path.join(ROOT, "out")
+    work = os.path.join(outroot, "replay_crate")
     os.makedirs(os.path.join(work, "src"), exist_ok=True)
     toml = open(os.path.join(src, "Cargo.toml")).read().replace("/repo/rust/", os.path.join(weave.REPO, "rust/"))
     open(os.path.join(work, "Cargo.toml"), "w").write(toml)
@@ -29,12 +30,12 @@ def build_replay():
     lock = os.path.join(weave.REPO, "Cargo.lock")
     if os.path.exists(lock):
         open(os.path.join(work, "Cargo.lock"), "w").write(open(lock).read())
-    env = dict(os.environ, RUSTUP_TOOLCHAIN=TOOLCHAIN, CARGO_TARGET_DIR=os.path.join(ROOT, "out", "replay_target"),
-               CARGO_NET_OFFLINE="true")
+    tgt = os.path.join(outroot, "replay_target")
+    env = dict(os.environ, RUSTUP_TOOLCHAIN=TOOLCHAIN, CARGO_TARGET_DIR=tgt, CARGO_NET_OFFLINE="true")
     p = subprocess.run(["cargo", "build", "--offline", "--quiet"], cwd=work, env=env, capture_output=True, text=True)
     if p.returncode:
         return None, p.stderr[-1500:]
-    return os.path.join(ROOT, "out", "replay_target", "debug", "candid_replay"), None
+    return os.path.join(tgt, "debug", "candid_replay"), None
 
 
 def bignum_encoders(pid):
